@@ -42,7 +42,7 @@ Section Rule.
 Variable M : list mdef.
 Variable rk : nat -> nat.
 Variable HM : list nat.
-Hypothesis WF : forallb (wf_def rk) M = true.
+Hypothesis WF : forallb (wf_def rk M) M = true.
 Hypothesis WH : forallb (wf_head_def HM) M = true.
 
 Lemma memn_in n l : memn n l = true <-> In n l.
@@ -143,8 +143,15 @@ Qed.
 End Rule.
 
 
-Lemma wf_macros_split rk HM M : wf_macros rk HM M = true -> forallb (wf_def rk) M = true /\ forallb (wf_head_def HM) M = true.
+Lemma wf_macros_split rk HM M : wf_macros rk HM M = true -> forallb (wf_def rk M) M = true /\ forallb (wf_head_def HM) M = true.
 Proof. unfold wf_macros. apply andb_true_iff. Qed.
+
+(* the hypothesis "bound by a direct item of the body" (the only one admitted before binders through nested invocations
+   were) implies the present one *)
+Lemma bound_direct_weaker M d : wf_def_bound_direct d = true -> wf_def_bound M d = true.
+Proof.
+  unfold wf_def_bound_direct, wf_def_bound. rewrite !forallb_forall. intros H i Hi. rewrite (H i Hi). reflexivity.
+Qed.
 
 Theorem hygiene_thm : forall M rk HM r r', wf_macros rk HM M = true -> wf_rule HM r = true -> expand_rule M r = OK r' ->
   exists h phi, hexpand_rule M r = OK h /\ hygienic_image r' h phi.
